@@ -49,6 +49,9 @@ CHECKS = {
  "C13": ("model_checking", "stateless exhaustive DFS over choice sequences of environment answers (send outcomes, peer reads, time) and application actions on the real Server/Socket code with intercepted send/epoll_wait/clock",
          "every sequence of 4 (5) application turns over {write 1/3/8, suspend, resume, peer write, nothing} combined with every placement of <= 2 (3) non-default OS answers (would-block, partial 1 / n/2 / n-1, peer reads nothing / one byte); stream integrity, postponed/backlog size, onWrite accounting and suspension are decided on each; a descriptor that answered would-block stays unwritable until time advances so that backlogs persist across application turns",
          "real kernel socket pair + epoll readiness; no error injection here", "DESIGN.md §4 C13"),
+ "C14": ("model_checking", "explorer C (stateless DFS over programs of application turns, re-entrant reactions inside callbacks and environment deviations on the real Server with intercepted epoll_wait/clock) + explorer B (schedule DFS of run() against interrupt() from a second thread with the event descriptor and epoll modelled by the scheduler)",
+         "sequential: every program of up to 3-5 application turns and up to 2 reactions inside timer/onRead callbacks over timers with equal and different due times, two paired clients, peer writes/closes, suspend/resume, interrupt, with clock overshoot/jump and reversed readiness order; threaded: four run/interrupt scenarios under every schedule with <= 2 (3) preemptions",
+         "real kernel socket pairs and epoll in the sequential part; TCP listeners/establishers and the host name resolver are not exercised", "DESIGN.md §4 C14"),
  "C15": ("exploration", "exhaustive enumeration of token strings / value trees / symbol strings on the real parser, serialiser and comment stripper under ASan",
          "every token string up to 5 (6) tokens over a 32-token alphabet, every value tree up to 4 (5) nodes, every stripComments input up to 8 (10) symbols; totality, bounds, error position, round trip and comment removal are decided on each",
          "alphabets and sizes are bounded; Variant == decides tree equality", "DESIGN.md §4 C15"),
